@@ -14,6 +14,9 @@ extern size_t cqv_mc_n[4];
 extern unsigned cqv_mc_calls;
 /* ---- ghost: an arbitrary row index (stands for "for all rows") ---- */
 size_t cqv_j;
+/* ---- ghost switch: the contract clauses of carquet_read_next_page that READ definition levels are
+ * proved with it on (h_next_page) and dropped where the contract is used as an assumption ---- */
+_Bool cqv_np_witness;
 /* ---- ghost: set when a call could not make full progress for a reason outside the row stream
  * (callee error, empty page, unknown type, allocation failure); never cleared by the library ---- */
 _Bool cqv_rb_short;
@@ -43,7 +46,11 @@ int64_t cqv_g_nn;
    (t) == CARQUET_PHYSICAL_INT96 ? (size_t)12 : \
    (t) == CARQUET_PHYSICAL_BYTE_ARRAY ? sizeof(carquet_byte_array_t) : (size_t)(tl))
 /* case split over the physical type (one job per case; default: all types in one job) */
-#ifdef CQV_TYPE
+#if defined(CQV_TYPE) && defined(CQV_TL_FIX)   /* FIXED_LEN_BYTE_ARRAY of one concrete length */
+#define CQV_TYPE_CASE(t) ((int)(t) == CQV_TYPE)
+#define CQV_TL_CASE(r) ((r)->type_length == CQV_TL_FIX)
+#define CQV_VSZ(r) ((size_t)CQV_TL_FIX)
+#elif defined(CQV_TYPE)
 #define CQV_TYPE_CASE(t) ((int)(t) == CQV_TYPE)
 #define CQV_VSZ(r) CQV_VSZ_T(CQV_TYPE, (r)->type_length)
 #else
@@ -60,9 +67,12 @@ int64_t cqv_g_nn;
 #define CQV_PAGE_MAX (1 << 30)   /* compressed page size; INT32_MAX: separate job */
 #endif
 #define CQV_HDR_MAX (1 << 20)    /* serialized page header size */
+#ifndef CQV_TL_CASE
+#define CQV_TL_CASE(r) 1
+#endif
 /* facts fixed at column-reader creation for a valid file */
 #define CQV_RD_STATIC(r) \
-  ((int)(r)->type >= 0 && (int)(r)->type <= 7 && (r)->type_length >= 0 && (r)->type_length <= CQV_TL_MAX && \
+  (CQV_TL_CASE(r) && (int)(r)->type >= 0 && (int)(r)->type <= 7 && (r)->type_length >= 0 && (r)->type_length <= CQV_TL_MAX && \
    ((r)->type != CARQUET_PHYSICAL_FIXED_LEN_BYTE_ARRAY || (r)->type_length >= 1) && \
    (r)->max_def_level >= 0 && (r)->max_rep_level >= 0)
 /* state of a loaded page */
@@ -81,6 +91,7 @@ int64_t cqv_g_nn;
 #define CQV_RD_BUF_D(r) (!CQV_PAGE_LIVE(r) || __CPROVER_r_ok((r)->decoded_def_levels, (size_t)(r)->page_num_values * sizeof(int16_t)))
 #define CQV_RD_BUF_R(r) (!CQV_PAGE_LIVE(r) || __CPROVER_r_ok((r)->decoded_rep_levels, (size_t)(r)->page_num_values * sizeof(int16_t)))
 #define CQV_PAGE_LIVE(r) ((r)->page_loaded && (r)->page_values_read < (r)->page_num_values)
+#define CQV_OLD_LIVE (__CPROVER_old(reader->page_loaded) && __CPROVER_old(reader->page_values_read) < __CPROVER_old(reader->page_num_values))
 /* only inside ensures clauses of carquet_read_next_page */
 #define CQV_FRESHPAGE (!__CPROVER_old(reader->page_loaded) || __CPROVER_old(reader->page_values_read) >= __CPROVER_old(reader->page_num_values))
 #define CQV_START ((int64_t)(CQV_FRESHPAGE ? 0 : __CPROVER_old(reader->page_values_read)))
@@ -92,7 +103,7 @@ int64_t cqv_g_nn;
  *  - jobs with -DCQV_SMALL (page <= 8 rows): the exact statement with the spec counting function
  *    CQV_NN unrolled over the page. */
 #define CQV_DENSE_WITNESS_POST \
-  ((__CPROVER_return_value == CARQUET_OK && __CPROVER_old(cqv_mc_calls) == 0 && reader->max_def_level > 0 && \
+  ((cqv_np_witness && __CPROVER_return_value == CARQUET_OK && __CPROVER_old(cqv_mc_calls) == 0 && reader->max_def_level > 0 && \
     cqv_j < (size_t)CQV_START && reader->decoded_def_levels[cqv_j] != reader->max_def_level) ==> \
    (__CPROVER_POINTER_OFFSET(cqv_mc_src[0]) >= 0 && \
     (size_t)__CPROVER_POINTER_OFFSET(cqv_mc_src[0]) + CQV_VSZ(reader) <= (size_t)CQV_START * CQV_VSZ(reader)))
@@ -104,7 +115,7 @@ int64_t cqv_g_nn;
 #ifdef CQV_SMALL
 #define CQV_INV_DENSE(d, lo, hi, cnt, m) ((cnt) == CQV_NN(d, lo, hi, m))
 #define CQV_DENSE_EXACT_POST \
-  ((__CPROVER_return_value == CARQUET_OK && reader->max_def_level > 0) ==> \
+  ((cqv_np_witness && __CPROVER_return_value == CARQUET_OK && reader->max_def_level > 0) ==> \
    (reader->last_read_non_null == (int64_t)CQV_NN(reader->decoded_def_levels, CQV_START, CQV_START + *values_read, reader->max_def_level) && \
     (__CPROVER_old(cqv_mc_calls) != 0 || \
      cqv_mc_src[0] == reader->decoded_values + CQV_NN(reader->decoded_def_levels, 0, CQV_START, reader->max_def_level) * CQV_VSZ(reader))))
@@ -114,6 +125,22 @@ int64_t cqv_g_nn;
   ((!(cqv_j >= (size_t)(lo) && cqv_j < (size_t)(hi) && (d)[cqv_j] != (m)) || (cnt) + 1 <= (size_t)((hi) - (lo))) && \
    (!(cqv_j >= (size_t)(lo) && cqv_j < (size_t)(hi) && (d)[cqv_j] == (m)) || (cnt) >= 1))
 #define CQV_DENSE_EXACT_POST 1
+#endif
+
+#ifndef CQV_RB_DEF
+#define CQV_RB_DEF 1
+#endif
+#ifndef CQV_RB_REP
+#define CQV_RB_REP 1
+#endif
+#if CQV_RB_DEF && CQV_RB_REP
+#define CQV_RB_LOOP_BUFS __CPROVER_object_whole(values), __CPROVER_object_whole(def_levels), __CPROVER_object_whole(rep_levels)
+#elif CQV_RB_DEF
+#define CQV_RB_LOOP_BUFS __CPROVER_object_whole(values), __CPROVER_object_whole(def_levels)
+#elif CQV_RB_REP
+#define CQV_RB_LOOP_BUFS __CPROVER_object_whole(values), __CPROVER_object_whole(rep_levels)
+#else
+#define CQV_RB_LOOP_BUFS __CPROVER_object_whole(values)
 #endif
 
 #include "src/reader/page_reader.c"
@@ -127,6 +154,9 @@ static carquet_column_reader_t *mk_reader(void) {
   __CPROVER_assume(r != NULL);
 #ifdef CQV_TYPE
   r->type = (carquet_physical_type_t)CQV_TYPE;
+#endif
+#ifdef CQV_TL_FIX
+  r->type_length = CQV_TL_FIX;
 #endif
   r->page_loaded = nondet_bool();
   __CPROVER_assume(CQV_RD_INV(r));
@@ -159,6 +189,7 @@ void h_next_page(void) {
   int64_t *nread = nondet_bool() ? malloc(sizeof(int64_t)) : NULL;
   carquet_error_t *err = nondet_bool() ? malloc(sizeof(carquet_error_t)) : NULL;
   cqv_mc_calls = 0;
+  cqv_np_witness = 1;
   cqv_j = nondet_size_t();
   /* counterexample inputs for the native replayer (replay/direct/colreader_next_page_dense.c) */
   _Bool cex_live = r && r->page_loaded, cex_w = cex_live && cqv_j < (size_t)r->page_values_read;
@@ -184,11 +215,14 @@ void h_read_batch(void) {
   size_t vs = CQV_VSZ(r);
   size_t cnt = max_values > 0 ? (size_t)max_values : 0;
   __CPROVER_assume(cnt * vs <= CQV_MAXBUF);
-  /* restriction of this harness: all three output buffers are present (cbmc 6.11 accepts neither
-   * conditional nor ternary targets in the loop assigns clause, so NULL level buffers are not covered) */
+  /* cbmc 6.11 accepts neither conditional nor ternary targets in a LOOP assigns clause, so the
+   * NULL / non-NULL combinations of the level buffers are separate jobs (CQV_RB_DEF, CQV_RB_REP);
+   * values is non-NULL (a NULL values buffer is rejected by carquet_read_next_page) */
   void *values = malloc(cnt * vs);
-  int16_t *def = malloc(cnt * sizeof(int16_t));
-  int16_t *rep = malloc(cnt * sizeof(int16_t));
+  int16_t *def = CQV_RB_DEF ? malloc(cnt * sizeof(int16_t)) : NULL;
+  int16_t *rep = CQV_RB_REP ? malloc(cnt * sizeof(int16_t)) : NULL;
+  __CPROVER_assume(values != NULL && (!CQV_RB_DEF || def != NULL) && (!CQV_RB_REP || rep != NULL));
+  cqv_np_witness = 0;
   cqv_rb_short = 0;
   int64_t got = carquet_column_read_batch(r, values, max_values, def, rep);
   CQV_CANARY("read_batch returns");
@@ -202,6 +236,7 @@ void h_skip(void) {
   carquet_column_reader_t *r = mk_reader();
   int64_t n = nondet_i64();
   cqv_rb_short = 0;
+  cqv_np_witness = 0;
   int64_t got = carquet_column_skip(r, n);
   CQV_CANARY("skip returns");
   if (got > 0) CQV_CANARY("skip can skip rows");
